@@ -100,7 +100,7 @@ func IPCandidates(d int, sh *enum.Sharder, f func(s string)) {
 }
 
 // Ports is the port text set for addr:port wrapping.
-var Ports = []string{"", "0", "80", "00080", "65535", "65536", "-1", "+1", "8 0", "1234567890123456789012345", "١"}
+var Ports = []string{"", "0", "80", "00080", "32767", "32768", "65535", "65536", "99999", "4294967376", "-1", "+1", "8 0", "1234567890123456789012345", "١"}
 
 // WrapPort calls f for every addr:port wrapping of addr.
 func WrapPort(addr string, f func(s string)) {
